@@ -1842,8 +1842,9 @@ void expression_t::collect_possible_writes(set<symbol_t>& symbols) const
     case FUN_CALL:
     case FUN_CALL_EXT:
         // Add all symbols which are changed by the function
-        symbol = get(0).get_symbol();
-        if ((symbol.get_type().is_function() || symbol.get_type().is_function_external()) && symbol.get_data()) {
+        symbol = get(0).get_symbol();  // empty when the callee is not a name, e.g. (-f)(a)
+        if (symbol != symbol_t() && (symbol.get_type().is_function() || symbol.get_type().is_function_external()) &&
+            symbol.get_data()) {
             fun = (function_t*)symbol.get_data();
 
             symbols.insert(fun->changes.begin(), fun->changes.end());
@@ -1876,6 +1877,8 @@ void expression_t::collect_possible_reads(set<symbol_t>& symbols, bool collectRa
     case FUN_CALL: {
         // Add all symbols which are used by the function
         auto symbol = get(0).get_symbol();
+        if (symbol == symbol_t())  // the callee is not a name, e.g. (-f)(a)
+            break;
         if (auto type = symbol.get_type(); type.is_function() || type.is_function_external()) {
             if (auto* data = symbol.get_data(); data) {
                 auto fun = static_cast<function_t*>(data);
